@@ -624,22 +624,43 @@ fn poolreal(args: &[&str]) -> String {
                 }
             }
         });
-        // the real server
-        let sport = free_port();
-        let saddr = format!("127.0.0.1:{}", sport);
-        let scfg = anytls_rs::util::tls::create_server_config().unwrap();
-        let acceptor = Arc::new(tokio_rustls::TlsAcceptor::from(scfg));
-        let server = Arc::new(anytls_rs::server::Server::new(
-            PASSWORD,
-            acceptor,
-            PaddingFactory::default(),
-            None,
-        ));
-        let s2 = server.clone();
-        let saddr2 = saddr.clone();
-        tokio::spawn(async move {
-            let _ = s2.listen(&saddr2).await;
-        });
+        // the real server (the port is picked by bind-and-release, so retry if somebody else grabbed it)
+        let mut saddr = String::new();
+        for _attempt in 0..5 {
+            let sport = free_port();
+            let cand = format!("127.0.0.1:{}", sport);
+            let scfg = anytls_rs::util::tls::create_server_config().unwrap();
+            let acceptor = Arc::new(tokio_rustls::TlsAcceptor::from(scfg));
+            let server = Arc::new(anytls_rs::server::Server::new(
+                PASSWORD,
+                acceptor,
+                PaddingFactory::default(),
+                None,
+            ));
+            let cand2 = cand.clone();
+            let h = tokio::spawn(async move {
+                let _ = server.listen(&cand2).await;
+            });
+            let mut up = false;
+            for _ in 0..100 {
+                if h.is_finished() {
+                    break;
+                }
+                if tokio::net::TcpStream::connect(&cand).await.is_ok() {
+                    up = true;
+                    break;
+                }
+                tokio::time::sleep(ms(10)).await;
+            }
+            if up {
+                saddr = cand;
+                break;
+            }
+            h.abort();
+        }
+        if saddr.is_empty() {
+            return "no-server".to_string();
+        }
         // counting forwarder
         let fwd = tokio::net::TcpListener::bind("127.0.0.1:0").await.unwrap();
         let faddr = fwd.local_addr().unwrap();
@@ -659,13 +680,6 @@ fn poolreal(args: &[&str]) -> String {
                 }
             }
         });
-        // wait until the server listens
-        for _ in 0..100 {
-            if tokio::net::TcpStream::connect(&saddr).await.is_ok() {
-                break;
-            }
-            tokio::time::sleep(ms(10)).await;
-        }
         let tls = anytls_rs::util::tls::create_client_config().unwrap();
         let connector = Arc::new(tokio_rustls::TlsConnector::from(tls));
         let name = tokio_rustls::rustls::pki_types::ServerName::IpAddress(
